@@ -242,8 +242,8 @@ def check(pid, tier, replay=None):
     for i, (init, prog) in enumerate(progs):
         for qs in (('every', 'end') if (thorough or i % 3 == 0) else ('every',)):
             jobs.append((i, init, prog, qs))
-    maxe = 20000 if thorough else 1200
-    nrand = 2000 if thorough else 120
+    maxe = 6000 if thorough else 1200
+    nrand = 1000 if thorough else 120
     bound = 2 if thorough else 1
     sample = 2 if thorough else 4
     from concurrent.futures import ThreadPoolExecutor
